@@ -70,6 +70,7 @@ struct World {
   int behind = 0;  // what follows a file mapping: 0 inaccessible, 1 non-zero garbage page, 2 zero page
   long step_budget = 20000000;
   long sim_epoch = 1700000000;
+  bool fd0_free = false;  // the caller closed stdin: the first descriptor the library opens is 0
   int sabotage = 0;  // canaries only: 1 = mremap moves but returns the stale address, 2 = output files lose their last byte
   std::vector<FileSpec> files;
 };
